@@ -7,11 +7,11 @@ Definition is_none (v : val) : bool := match v with VNone => true | _ => false e
 
 (* ---------------- the guard ---------------- *)
 (* static, on the body of a lambda: function cells are not also used as values, no Python-level test of a cell's
-   truth value and no list index (both handled by separate lemmas / refutations) *)
+   truth value (handled by a separate lemma / refutation) *)
 Definition fn_cell_ok (us : list use) (u : use) : bool :=
   match u with
   | UCall i | UCallArg i _ => negb (has_param us i)
-  | UIf _ _ _ _ _ | UIndex _ _ _ _ _ => false
+  | UIf _ _ _ _ _ => false
   | _ => true
   end.
 Definition safe_body (us : list use) : bool := forallb (fn_cell_ok us) us.
@@ -23,6 +23,10 @@ Definition safe_use (e : list val) (u : use) : bool :=
   | UCmp _ _ _ i | ULimit i => negb (is_none (cell e i))
   | UTabCmp _ _ _ j | UCallArg _ j => negb (is_none (cell e j))
   | UCall i => match cell e i with VFun _ (_ :: _) => false | _ => true end
+  | UIndex _ _ _ i k => match cell e i with
+                        | VList l => Nat.ltb k (length l) && negb (is_none (nth k l VNone))
+                        | _ => true
+                        end
   | _ => true
   end.
 Definition safe_env (us : list use) (e : list val) : bool := forallb (safe_use e) us.
@@ -62,13 +66,17 @@ Section Proofs.
     - destruct (wrapped a i); [|eapply fill_fixed; eauto]. inversion Hb; subst. cbn in *.
       destruct (cell e i); try discriminate. inversion Hd. reflexivity.
     - eapply fill_fixed; eauto.
-    - discriminate.
+    - destruct (wrapped a i); [|eapply fill_fixed; eauto]. cbn [direct_use] in Hd. cbn [safe_use] in Hs.
+      destruct (cell e i) eqn:Ei; try discriminate.
+      destruct (nth_error l k) as [v|] eqn:En; [|discriminate]. inversion Hb; subst. cbn. rewrite Ei.
+      apply andb_true_iff in Hs. destruct Hs as [_ Hs]. apply negb_true_iff in Hs.
+      rewrite (nth_error_nth l k VNone En) in *. rewrite (cmp_direct_ok _ _ _ _ _ Hd Hs). reflexivity.
   Qed.
 
   Lemma build_total_use : forall a e u its,
-    direct_use F e u = Ok its -> (forall t c op i k, u <> UIndex t c op i k) -> exists p, build_use F a e u = Ok p.
+    direct_use F e u = Ok its -> exists p, build_use F a e u = Ok p.
   Proof.
-    intros a e u its Hd Hn. destruct u; cbn [build_use]; try (rewrite Hd; cbn; eauto; fail).
+    intros a e u its Hd. destruct u; cbn [build_use]; try (rewrite Hd; cbn; eauto; fail).
     - destruct (wrapped a i); [eauto|rewrite Hd; cbn; eauto].
     - destruct (wrapped a i); [eauto|rewrite Hd; cbn; eauto].
     - cbn [direct_use] in Hd. destruct (cell e i) eqn:Ei; try discriminate.
@@ -76,24 +84,21 @@ Section Proofs.
     - cbn [direct_use] in Hd. destruct (cell e i) eqn:Ei; try discriminate.
       destruct (wrapped a j); [eauto|]. cbn [direct_use]. rewrite Ei, Hd. cbn. eauto.
     - destruct (wrapped a i); [eauto|rewrite Hd; cbn; eauto].
-    - exfalso. eapply Hn. reflexivity.
+    - destruct (wrapped a i); [|rewrite Hd; cbn; eauto]. cbn [direct_use] in Hd.
+      destruct (cell e i); try discriminate. destruct (nth_error l k); [eauto|discriminate].
   Qed.
 
-  Definition not_index (u : use) : bool := match u with UIndex _ _ _ _ _ => false | _ => true end.
-
   Lemma build_fill_uses : forall a e us its,
-    forallb (safe_use e) us = true -> forallb not_index us = true -> direct_uses F e us = Ok its ->
+    forallb (safe_use e) us = true -> direct_uses F e us = Ok its ->
     exists p, build_uses F a e us = Ok p /\ fill e p = its.
   Proof.
-    intros a e us. induction us as [|u r IH]; intros its Hs Hn Hd.
+    intros a e us. induction us as [|u r IH]; intros its Hs Hd.
     - cbn in Hd. inversion Hd. exists []. split; reflexivity.
-    - cbn in Hs, Hn, Hd. apply andb_true_iff in Hs. destruct Hs as [Hs1 Hs2].
-      apply andb_true_iff in Hn. destruct Hn as [Hn1 Hn2].
+    - cbn in Hs, Hd. apply andb_true_iff in Hs. destruct Hs as [Hs1 Hs2].
       destruct (direct_use F e u) as [l1| | |] eqn:E1; try discriminate.
       destruct (direct_uses F e r) as [l2| | |] eqn:E2; try discriminate. inversion Hd; subst.
       destruct (build_total_use a e u l1 E1) as [p1 Hp1].
-      { intros t c op i k H. subst. discriminate. }
-      destruct (IH l2 Hs2 Hn2 eq_refl) as [p2 [Hp2 Hf2]].
+      destruct (IH l2 Hs2 eq_refl) as [p2 [Hp2 Hf2]].
       exists (p1 ++ p2). cbn. rewrite Hp1, Hp2. split; [reflexivity|].
       unfold fill in *. rewrite flat_map_app. f_equal; [|exact Hf2].
       exact (build_fill_use a e u l1 p1 Hs1 E1 Hp1).
@@ -258,7 +263,12 @@ Section Proofs.
         destruct (wrapped a j) eqn:Wj; [reflexivity|]. cbn [direct_use]. rewrite E, E', (unwrapped_same j Wj). reflexivity.
       - destruct (wrapped a i) eqn:W; [reflexivity|]. cbn [direct_use]. rewrite (unwrapped_same i W). reflexivity.
       - discriminate.
-      - reflexivity.
+      - (* UIndex *) destruct (wrapped a i) eqn:W; [|cbn [direct_use]; rewrite (unwrapped_same i W); reflexivity].
+        cbn [safe_use] in Hs, Hs'. pose proof (same_kind_cell i) as Hk.
+        destruct (cell e i) eqn:E; destruct (cell e' i) eqn:E'; try reflexivity; try discriminate; try (kill_list_kind Hk).
+        apply andb_true_iff in Hs, Hs'. destruct Hs as [Hs _], Hs' as [Hs' _]. apply Nat.ltb_lt in Hs, Hs'.
+        destruct (nth_error l k) eqn:N1; [|apply nth_error_None in N1; lia].
+        destruct (nth_error l0 k) eqn:N2; [|apply nth_error_None in N2; lia]. reflexivity.
     Qed.
 
     Lemma build_uses_same_key : forall us', incl us' us -> forallb (fn_cell_ok us) us' = true ->
